@@ -18,6 +18,7 @@ package main
 // Part 1 (direct, overlapping reload calls, porcupine) runs inside pkg/authentication/basic (harness_basic/).
 
 import (
+	"runtime"
 	"encoding/base64"
 	"encoding/json"
 	"fmt"
@@ -181,8 +182,40 @@ func c20WriteFile(path, content string, n int) error {
 	return os.Rename(tmp, path)
 }
 
+// progress monitor: every completed validation / reload-visible probe bumps c20Progress. If, while a round is active, the
+// counter stands still for 2000 consecutive heartbeats of a goroutine of THIS process (each >= 10 ms: the process was
+// being scheduled for >= 20 s) no validator and no reloader completed anything: validators and reloader block each other.
+var c20Progress, c20Active int64
+
+func c20Watch(run *vfRun) {
+	go func() {
+		last, still := int64(-1), 0
+		for {
+			time.Sleep(10 * time.Millisecond)
+			if atomic.LoadInt64(&c20Active) == 0 {
+				still = 0
+				continue
+			}
+			if cur := atomic.LoadInt64(&c20Progress); cur != last {
+				last, still = cur, 0
+				continue
+			}
+			still++
+			if still == 2000 {
+				buf := make([]byte, 1<<20)
+				buf = buf[:runtime.Stack(buf, true)]
+				run.Violation("c20:validators-and-reload-block-each-other", fmt.Sprintf("no validation and no reload completed during 2000 heartbeats (>= 20 s of this process running) after %d completed operations: validations and the reload are deadlocked", last),
+					map[string]interface{}{"goroutines": string(buf)})
+				run.Finish(0, 0)
+				os.Exit(1)
+			}
+		}
+	}()
+}
+
 func TestVerif_C20(t *testing.T) {
 	run := vfNewRun(t, "C20", "exploration")
+	c20Watch(run)
 	run.SetRule("file versions v1..vN (entries added, removed, password changed; every third version malformed in 3 ways) replaced atomically by a writer while 2-16 validators ask version-discriminating probes through real proxy requests and the instance's validator; " +
 		"plus (package basic) direct overlapping reload calls checked with porcupine. cell = (file kind, #validators, probe kind, answer, via) ; non-trivial = the validation overlapped or followed a replacement")
 	run.Assume("fsnotify delivers events for atomic renames (completion of a reload is unobservable: writes are open-ended)", "porcupine v1.3.0 for the direct-call histories")
@@ -219,6 +252,8 @@ func TestVerif_C20(t *testing.T) {
 }
 
 func c20Round(run *vfRun, w *vfWorld, r, nVal int) {
+	atomic.StoreInt64(&c20Active, 1)
+	defer atomic.StoreInt64(&c20Active, 0)
 	htp := filepath.Join(w.Dir, fmt.Sprintf("htpasswd-%d", r))
 	emf := filepath.Join(w.Dir, fmt.Sprintf("emails-%d", r))
 	_ = c20WriteFile(htp, c20Htpasswd(1), 0)
@@ -307,6 +342,7 @@ func c20Round(run *vfRun, w *vfWorld, r, nVal int) {
 					seenAtCall := int(atomic.LoadInt32(&seen))
 					call := now()
 					ans, ok := tg.ask(pr, viaHTTP)
+					atomic.AddInt64(&c20Progress, 1)
 					ret := now()
 					writtenAtRet := int(atomic.LoadInt32(&written))
 					if !ok {
@@ -457,6 +493,57 @@ func c20Round(run *vfRun, w *vfWorld, r, nVal int) {
 		}
 		if lost == 1 {
 			run.Inconclusive("one in-place rewrite pair did not end with the final contents in force")
+		}
+		// removal and late replacement (rm, then a deployment step that writes the new file some time later): the new
+		// contents — and every version after them — must still come into force. Quick tier: first round only.
+		if r == 0 || run.Env.Thorough() {
+			gap := []time.Duration{1500, 200, 3000, 1100}[(r+int(run.Env.Seed))%4] * time.Millisecond
+			if r == 0 {
+				gap = 1500 * time.Millisecond
+			}
+			before := -1
+			for j := c20N; j >= 1; j-- {
+				if c20Bad(j) {
+					continue
+				}
+				if ans, ok := tg.ask(c20Probe{"vuser", j}, false); ok && ans {
+					before = j
+					break
+				}
+			}
+			_ = os.Remove(tg.path)
+			time.Sleep(gap)
+			if ans, ok := tg.ask(c20Probe{"vuser", before}, false); ok && ans {
+				run.Count(tg.name+"_previous_contents_in_force_while_file_absent", 1)
+			} else {
+				run.Count(tg.name+"_previous_contents_NOT_in_force_while_file_absent", 1)
+			}
+			lostAfterRemoval := ""
+			for step, v := range []int{2, 4} { // the replacement, then one more ordinary replacement (the watch must be live again)
+				if err := c20WriteFile(tg.path, tg.content(v), 5000+v); err != nil {
+					run.T.Fatalf("write: %v", err)
+				}
+				vis := false
+				for tries := 0; tries < 1000; tries++ { // up to ~5 s
+					if ans, ok := tg.ask(c20Probe{"vuser", v}, false); ok && ans {
+						vis = true
+						break
+					}
+					atomic.AddInt64(&c20Progress, 1)
+					time.Sleep(5 * time.Millisecond)
+				}
+				if !vis {
+					lostAfterRemoval = []string{"the replacement written after the removal", "the version written after that replacement"}[step]
+					break
+				}
+			}
+			run.Eval(fmt.Sprintf("%s|removed, replaced after %v|final state", tg.name, gap))
+			if lostAfterRemoval != "" {
+				run.Violation("c20:replacement-after-removal-never-loaded", fmt.Sprintf("%s: the file was removed and written again %v later: %s never came into force (5 s of quiescence) — removed entries stay valid", tg.name, gap, lostAfterRemoval),
+					map[string]interface{}{"flags": p.Flags, "file": tg.name, "gap": gap.String(), "in_force_before": before})
+			} else {
+				run.Count(tg.name+"_removal_then_replacement_loaded", 1)
+			}
 		}
 		if maxInvisibleRun >= 3 {
 			run.Violation("c20:reload-never-visible", fmt.Sprintf("%s: %d consecutive well-formed replacements never became visible within the bound (reload lost)", tg.name, maxInvisibleRun), map[string]interface{}{"flags": p.Flags, "file": tg.name})
